@@ -81,9 +81,66 @@ func c08Decision(p *Play, hd *h.Hand) {
 	}
 }
 
+// c08LateSitIn: at the moment the gate fires only one seated-in player has chips (the other expected player left,
+// a third has reserved but not sat down), so the first open fails; the third player sits down while the engine
+// waits to retry: now two seated-in players have chips and the retry must open the hand.
+func c08LateSitIn(c *h.Ctx) {
+	r := c.R
+	cfg := h.GenTable(r, h.GenOpts{MinSeats: 3, MaxSeats: 8, MinPlayers: 3, DeepOnly: true, Modes: []string{"ct", "cash"}, Rules: []string{"default", "default", "short_deck"}})
+	cfg.Players = cfg.Players[:3]
+	late := cfg.Players[2]
+	two := cfg
+	two.Players = cfg.Players[:2]
+	ss, err := h.StartSession(two, r, nil)
+	if err != nil {
+		c.Inconclusive("start: " + err.Error())
+		return
+	}
+	s := ss.S
+	if err := s.Reserve(late.ID, late.Seat, late.Chips); err != nil { // reserved, not seated-in
+		c.Inconclusive("reserve: " + err.Error())
+		return
+	}
+	hd := ss.NextHand(&h.Script{Policy: h.Nit, MaxWait: 15 * time.Second})
+	if hd.Settled == nil || hd.Setup == nil {
+		c.InconclusiveW("foreign: first hand did not settle / no set-up", map[string]interface{}{"cfg": cfg, "trace": s.TraceTail(30)})
+		return
+	}
+	gc0 := s.TE.GetTable().State.GameCount
+	leaver := two.Players[r.Intn(2)].ID
+	s.Leave(leaver)
+	ss.SignalPending(nil) // the leaver's signal is refused: the gate fires by its 2 s timeout
+	if _, ok := s.WaitFor(5*time.Second, func(e *h.Ev) bool { return e.Kind == h.EvGateFire }, nil); !ok {
+		c.Inconclusive("gate did not fire")
+		return
+	}
+	time.Sleep(time.Duration(300+r.Intn(1200)) * time.Millisecond)
+	s.TE.PlayerJoin(late.ID) // takes no engine lock: possible while the engine sleeps before its retry
+	opened := false
+	s.WaitFor(12*time.Second, func(e *h.Ev) bool {
+		if e.Kind == h.EvTable && e.T != nil && e.T.State.Status == pt.TableStateStatus_TableGameOpened && e.T.State.GameCount == gc0+1 {
+			opened = true
+		}
+		return opened || e.Kind == h.EvGateRet
+	}, nil)
+	time.Sleep(5 * time.Millisecond)
+	if !opened && s.TE.GetTable().State.GameCount == gc0 {
+		c.Violate("C08/next-hand-not-opened/after-late-sit-in", fmt.Sprintf("after hand %d one expected player left and %s sat down while the engine was waiting to retry the open: two seated-in players have chips, but the open-game callback returned without a hand (status %s)", gc0, late.ID, s.TE.GetTable().State.Status), map[string]interface{}{"cfg": cfg, "trace": s.TraceTail(40)})
+		return
+	}
+	c.Feature("late-sit-in-during-open-retry")
+	c.Nontrivial()
+	c.FP("late-sit-in", fmt.Sprintf("%+v", cfg))
+	c.Sample(map[string]interface{}{"kind": "player sits down while the engine waits to retry a failed open", "cfg": cfg})
+}
+
 func c08Run(c *h.Ctx) {
 	if c.Case%5 == 4 {
 		c08Interval1(c)
+		return
+	}
+	if c.Case%20 == 11 {
+		c08LateSitIn(c)
 		return
 	}
 	st := &c08State{}
@@ -358,7 +415,7 @@ func init() {
 		Cases:         func(tier string) int { return map[string]int{"quick": 240, "thorough": 4000}[tier] },
 		MinNontrivial: func(tier string) int { return map[string]int{"quick": 120, "thorough": 2000}[tier] },
 		RequiredFeatures: func(string) []string {
-			return []string{"decision:pause", "decision:deal-on", "continue-after-bust", "continue-with-waiting-or-new-player", "signals:one-withheld", "signals:repeated", "busted-bystander-topped-up-mid-hand", "interval1:pause", "interval1:set-up", "interval1:opened"}
+			return []string{"decision:pause", "decision:deal-on", "continue-after-bust", "continue-with-waiting-or-new-player", "signals:one-withheld", "signals:repeated", "busted-bystander-topped-up-mid-hand", "interval1:pause", "interval1:set-up", "interval1:opened", "late-sit-in-during-open-retry"}
 		},
 		CaseTimeout: 400e9,
 		InProc:      2,
